@@ -2228,7 +2228,8 @@ class AttrMonad(Monad):
         Monad.__init__(monad, attr_type)
         monad.parent = parent
         monad.attr = attr
-        monad.nullable = attr.nullable
+        # an attribute reached through an optional reference is missing when the reference is
+        monad.nullable = attr.nullable or (isinstance(parent, AttrMonad) and parent.nullable)
     def getsql(monad, sqlquery=None):
         parent = monad.parent
         attr = monad.attr
